@@ -371,10 +371,88 @@ def r11d(ctx, run):
               "distinct-discriminants", ct.file, loop["ln"], bad or "")
 
 
+def r11e(ctx, run):
+    """an arm's type is mapped to the tag that the value's producer wrote: get_tagged_union_discrim evaluated from source.  For an error union the
+    error side is 0 and the payload side is 1, told apart by the types THEMSELVES (two nominal types of the same shape are different sides); for an
+    optional nil is 0 and the payload 1; for an enum the variant's own discriminant."""
+    import c07
+    from absint import Obj, Term, Variant, Panic, CannotEstablish, _Return
+    V = Variant
+    fn = ctx.syn.fn("Ty::get_tagged_union_discrim", "hir/src/common/ty.rs")
+    QI = c07.make_ty_interp(ctx)
+    i32, st, u64 = V("Ty::IInt", {"0": 32}), V("Ty::String"), V("Ty::UInt", {"0": 64})
+    d1, d2 = V("Ty::Distinct", {"uid": 1, "sub_ty": i32}), V("Ty::Distinct", {"uid": 2, "sub_ty": i32})
+    s1 = V("Ty::ConcreteStruct", {"uid": 11, "members": [Obj("MemberTy", name=Term("a"), ty=i32)]})
+    s2 = V("Ty::ConcreteStruct", {"uid": 12, "members": [Obj("MemberTy", name=Term("a"), ty=i32)]})
+    va = V("Ty::EnumVariant", {"enum_uid": 7, "variant_name": Term("A"), "uid": 21, "sub_ty": i32, "discriminant": 5})
+    vb = V("Ty::EnumVariant", {"enum_uid": 7, "variant_name": Term("B"), "uid": 22, "sub_ty": i32, "discriminant": 9})
+    en = V("Ty::Enum", {"uid": 7, "variants": [va, vb]})
+    cases = [
+        ("str!u64, arm str", V("Ty::ErrorUnion", {"error_ty": st, "payload_ty": u64}), st, 0), ("str!u64, arm u64", V("Ty::ErrorUnion", {"error_ty": st, "payload_ty": u64}), u64, 1),
+        ("D1!D2 (two distincts of i32), arm D1", V("Ty::ErrorUnion", {"error_ty": d1, "payload_ty": d2}), d1, 0),
+        ("D1!D2 (two distincts of i32), arm D2", V("Ty::ErrorUnion", {"error_ty": d1, "payload_ty": d2}), d2, 1),
+        ("S1!S2 (two named structs of one shape), arm S2", V("Ty::ErrorUnion", {"error_ty": s1, "payload_ty": s2}), s2, 1),
+        ("[]D1![]D2, arm []D2", V("Ty::ErrorUnion", {"error_ty": V("Ty::Slice", {"sub_ty": d1}), "payload_ty": V("Ty::Slice", {"sub_ty": d2})}), V("Ty::Slice", {"sub_ty": d2}), 1),
+        ("?i32, arm nil", V("Ty::Optional", {"sub_ty": i32}), V("Ty::Nil"), 0), ("?i32, arm i32", V("Ty::Optional", {"sub_ty": i32}), i32, 1),
+        ("enum {A | 5, B | 9}, arm A", en, va, 5), ("enum {A | 5, B | 9}, arm B", en, vb, 9),
+        ("distinct (str!u64), arm u64", V("Ty::Distinct", {"uid": 30, "sub_ty": V("Ty::ErrorUnion", {"error_ty": st, "payload_ty": u64})}), u64, 1),
+    ]
+    for desc, ty, arm, want in cases:
+        it = QI(macros={"assert": lambda i, e, env: None, "assert_eq": lambda i, e, env: None})
+        try:
+            try:
+                got = it.inline(fn, [arm], recv=ty)
+            except _Return as r:
+                got = r.v
+        except (Panic, CannotEstablish) as c:
+            got = "cannot establish: %s" % getattr(c, "what", c)
+        run.check(got == want, fn.site(), "%s -> tag %s" % (desc, got), "Ty::get_tagged_union_discrim", "tag:" + desc, fn.file, fn.ln,
+                  "for %s the tag looked for is %s; the producer of such a value writes %d: the switch (and #is_variant / #unwrap) take the arm for the other side" % (desc, got, want))
+
+
+def r11f(ctx, run):
+    """the side of an error union a value is STORED on is chosen by the value's own (declared) type: in cast_into_memory the tests `fits the payload
+    type` / `fits the error type` are asked of the source type as given, not of the type after its nominal wrappers were stripped.  With the
+    stripped type the two sides of `Errno!Fd` (two distincts of i32) look the same and an error is stored as a payload; the switch (which maps arms
+    by the exact types, R11.e) then runs the payload arm for it."""
+    F = ctx.facts
+    fn = F.fn("codegen::compiler::cast_into_memory")
+    U = "codegen::compiler::cast_into_memory"
+    n = 0
+    for c in fn.calls():
+        if short(c.callee) != "can_fit_into":
+            continue
+        arg = fn.chain_operand(c.args[1], depth=10)
+        side = None
+        for nd in FA.walk_chain(arg):
+            for pr in nd.get("proj", []) or []:
+                if isinstance(pr, str) and ("payload_ty" in pr or "error_ty" in pr):
+                    side = "payload_ty" if "payload_ty" in pr else "error_ty"
+        txt = FA.show_chain(arg, 8)
+        if side is None and ("payload_ty" in txt or "error_ty" in txt):
+            side = "payload_ty" if "payload_ty" in txt else "error_ty"
+        if side is None:
+            # the two guards of the `(_, ErrorUnion)` arms: identified by their position next to cast_payload_into_tagged_union
+            nxt = [x for x in fn.calls() if short(x.callee) == "cast_payload_into_tagged_union" and fn.can_reach(c.bb, x.bb) and x.ln > c.ln and x.ln - c.ln < 20]
+            if not nxt:
+                continue
+            side = "a side"
+        n += 1
+        recv = fn.chain_operand(c.args[0], depth=14)
+        stripped = sorted({short(x["callee"]) for x in FA.walk_chain(recv) if x.get("kind") == "call" and short(x["callee"]) in ("absolute_intern_ty", "absolute_ty")})
+        run.check(not stripped, c.site(), "the source type asked whether it fits %s is the type as given" % side, U, "side-by-declared-type:%d" % n, c.file, c.ln,
+                  "whether the value goes on the %s side of the error union is asked of a type that went through %s: for `Errno!Fd` (two distincts of i32) an Errno "
+                  "value is stored with the payload tag, and `switch` runs the Fd arm for it" % (side, ", ".join(stripped)))
+    if n < 2:
+        raise LookupError("side tests of the (_, ErrorUnion) arms in cast_into_memory: %d" % n)
+
+
 def rules(ctx):
     return [
         Rule("R11.a", "structural matches on the scrutinee type agree with the distinct-transparent predicate that admitted it", 4, r11a),
         Rule("R11.b", "coverage logic: not-a-variant, duplicates, missing variants, complete variant list, default-arm rules", 8, r11b),
         Rule("R11.d", "variants of one enum get pairwise distinct discriminants; hand-written ones are kept (numbering loop evaluated on every small enum shape)", 1, r11d),
+        Rule("R11.e", "the tag an arm's type is mapped to is the tag its producer wrote: get_tagged_union_discrim evaluated (nominally different same-shape sides included)", 11, r11e),
+        Rule("R11.f", "the side of an error union a value is stored on is chosen by its declared type (def-use of the side tests in cast_into_memory)", 2, r11f),
         Rule("R11.c", "dispatch wiring: I8 tag at discriminant_offset, entry per arm keyed by its variant, fallback/fault, nullable form, argument binding", 9, r11c),
     ]
